@@ -1,5 +1,5 @@
 (* One entry point for the harness: request (list Z) -> reply (list Z). *)
-From JP Require Import Base.Json Extract.Wire Extract.WireAst Model.Slice Spec.Slice Model.Ast Model.Eval Spec.Sem Spec.Compare Model.Tokens Model.Lex Model.PyFloat Model.Parse Model.Api Spec.Rfc9535Grammar Spec.Types Spec.StringLit Model.Position Spec.Position Model.Serialize Spec.NormPath Model.History Model.Descent Model.NdVisit Spec.Nondet Spec.IRegexp Model.MapRe.
+From JP Require Import Base.Json Extract.Wire Extract.WireAst Model.Slice Spec.Slice Model.Ast Model.Eval Spec.Sem Spec.Compare Model.Tokens Model.Lex Model.PyFloat Model.Parse Model.Api Spec.Rfc9535Grammar Spec.Types Spec.StringLit Model.Position Spec.Position Model.Serialize Spec.NormPath Model.History Model.Descent Model.NdVisit Spec.Nondet Spec.IRegexp Model.MapRe Spec.Printable.
 
 Definition iota_json (len : Z) : list json := map (fun k => JNum (NInt (Z.of_nat k))) (seq 0 (Z.to_nat len)).
 Definition enc_sel (r : list (Z * json)) : list Z := enc_list (fun p => fst p :: enc_json (snd p)) r.
@@ -128,6 +128,12 @@ Definition op_str_query (r : list Z) : list Z :=
   match dec_str r1 with Some (q, _) =>
     enc_result enc_str (do c <- m_compile (mk_cfg 100 rg []) q; Ok (m_str c))
   | None => bad_request end | None => bad_request end.
+(* [22; registry; text] -> does the compiled query satisfy the decidable hypothesis of C12_roundtrip (lx_query)? *)
+Definition op_lx_query (r : list Z) : list Z :=
+  match dec_registry r with Some (rg, r1) =>
+  match dec_str r1 with Some (q, _) =>
+    enc_result enc_bool (do c <- m_compile (mk_cfg 100 rg []) q; Ok (lx_query c))
+  | None => bad_request end | None => bad_request end.
 (* [6; location] -> JSONPathNode.path() *)
 Definition op_path (r : list Z) : list Z :=
   match dec_list dec_key r with Some (loc, _) => enc_str (m_path loc) | None => bad_request end.
@@ -223,6 +229,7 @@ Definition dispatch (req : list Z) : list Z :=
   | 3 :: r => op_find r
   | 4 :: r => op_env_find r
   | 5 :: r => op_str_query r
+  | 22 :: r => op_lx_query r
   | 6 :: r => op_path r
   | 21 :: r => op_repr r
   | 10 :: r => op_nd_visit r
